@@ -133,6 +133,20 @@ CLAIMS["C08"] = dict(
     note="Python aliasing, pickling, copy.deepcopy, module-level state and BLAS threading are runtime; frameworks calling rand/randn excluded as the property says.",
     design="8.C08")
 
+CLAIMS["C13"] = dict(
+    technique="Lean 4 decision-logic model of the per-step parameter pipeline with programs (Atomica.Params) + parameter-step refinement against Model.update_pars and Result.get_coverage/get_alloc (mode C)",
+    text="Proof: program_value (active and targeted => clip(convert(outcome(coverage of this step)))), coverage_from_spending / coverage_overwrite, the three unit conversions, frame / frame_inactive (untargeted or outside start/stop: "
+         "as without programs), report_eq_used / report_capacity / report_alloc (what the finished Result reports is what the loop used, when no target is a junction; junction_gap witness), number_units_roundtrip. "
+         "For EVERY (parameter, population, time index) of processed models - generated with functions, limits, calibration factors and program sets, and library demos with instructions - the stored value is compared with the model; "
+         "ProgramSet.get_outcomes is wrapped to record in-loop coverage and program values, which are compared with the model and with Result.get_coverage / get_alloc.",
+    note="parameter functions, exp and covout outcomes are oracle inputs (their own semantics are C19/C11/C12); derivative parameters and junction targets excluded by hypothesis and counted.",
+    design="8.C13")
+CLAIMS["C06"]["text"] = ("Proof: (series) interp_knot/between/outside/single/assumption, previous_*, insert_wf/insert_spec/clean_sorted, previous_prefix for all series; (pipeline) precedence_program/function/data/skip/aggregation, "
+    "data_scaled, clip_before_use, evalStep_fixpoint (topological order => every function parameter equals the clip of its function on the final same-step values of its dependencies), with the faithful evalOneCurrent proved equal to the "
+    "specification except for the former precompute-skip defect. TimeSeries.interpolate/insert are compared with the model on generated sparse series; every (parameter, population, time index) of processed generated and library models is "
+    "compared with the pipeline model; population aggregations are recomputed independently from the interaction data.")
+CLAIMS["C06"]["technique"] = "Lean 4 theorems about the TimeSeries interpolation model and the parameter-pipeline decision logic (Atomica.Series, Atomica.Params) + correspondence with TimeSeries.interpolate and with every stored parameter value of processed models (modes A, C)"
+
 NA_DEFAULT = "not yet claimed: model, theorems and correspondence under construction (see DESIGN.md section 8)"
 NA = {}
 
